@@ -359,6 +359,7 @@ def main(tier, seed, replay=None):
 def do_replay(rep, path):
     import json
     body = json.load(open(path))
+    rep.no_evidence = True
     from vlib import impl
     I = impl.new_interpreter(False, False)
     n = 0
